@@ -107,3 +107,12 @@ Proof.
   split; [exact f12_accepted|]. split; [exact (verify_signature_vpsh _ _ _ f12_accepted)|].
   rewrite f12_s. pose proof n_half. assert (0 < halfOrder) by reflexivity. lia.
 Qed.
+
+Lemma f12_example :
+  length f12_sig = 65%nat /\ length f12_pk = 33%nat /\ sig_r f12_sig = 1 /\ sig_recid f12_sig = 0 /\
+  verify_signature f12_msg f12_sig f12_pk = true.
+Proof.
+  split; [apply sig_bytes_length|]. split; [reflexivity|].
+  split; [apply sig_bytes_r; vm_compute; split; [intro; discriminate|reflexivity]|].
+  split; [apply sig_bytes_recid|exact f12_accepted].
+Qed.
